@@ -119,9 +119,52 @@ def _descriptions(tier, seed):
             yield mol, part, next(g2.covering_renderings(mol, part, 1, prng)), smi
 
 
+# typed-in strings in which the zero-order bond is written in the less common places (in front of a ring marker that is followed
+# by another ring marker, directly behind a multiplier, in front of / behind a branch), with the molecule(s) they describe
+TYPED = [
+    ('{[#A].12[#B][#C]2.[#V]1}.{#A=[$]C[$],#B=[$]N[$],#C=[$]O[$]}', 'C1NO1'),
+    ('{[#A]2.1[#B][#C]2.[#V]1}.{#A=[$]C[$],#B=[$]N[$],#C=[$]O[$]}', 'C1NO1'),
+    ('{[#A]|2.[#V]}.{#A=[$]CC[$]}', 'CCCC'),
+    ('{[#A]|2.[#B]}.{#A=[$]CC[$],#B=[$]O}', 'CCCC.O'),
+    ('{[#V].[#A]|3}.{#A=[$]CC[$]}', 'CCCCCC'),
+    ('{[#A]|2.[#V].[#A]|2}.{#A=[$]CC[$]}', 'CCCC.CCCC'),
+    ('{[#A]([#B]).[#V]}.{#A=[$]CC[$],#B=[$]O}', 'CCO'),
+    ('{[#A].([#V])[#B]}.{#A=[$]CC[$],#B=[$]O}', 'CCO'),
+    ('{[#A]1.[#V].[#B]1[#C]}.{#A=[$]C,#B=[$]N[$],#C=[$]O}', 'CNO'),
+    ('{[#A]=[#B].[#B]}.{#A=[$]=C,#B=[$]=C}', 'C=C.C'),
+]
+
+
+def check_typed(case):
+    import networkx as nx
+    import pysmiles
+    from cgsmiles.resolve import MoleculeResolver
+    text, ref = case['text'], case['ref']
+    api = 'MoleculeResolver.resolve() with virtual nodes / zero-order edges'
+    r = base.quiet(lambda: MoleculeResolver.from_string(text).resolve())
+    if r[0] != 'ok':
+        return Outcome(text, True, [Failure(api, 'resolver-exception', '%s -> %s: %s' % (text, r[1], r[2][:160]),
+                                            'resolve/typed-zero-order/resolver-exception', text=text)])
+    fine = r[1][1]
+    want = pysmiles.read_smiles(ref, explicit_hydrogen=True)
+    want.remove_edges_from([(u, v) for u, v, o in want.edges(data='order') if o == 0])      # pysmiles keeps `.` as an order-0 edge
+    same = nx.is_isomorphic(fine, want, node_match=lambda a, b: a.get('element') == b.get('element'))
+    fails = []
+    if not same:
+        def formula(g):
+            els = sorted(d.get('element') for _, d in g.nodes(data=True))
+            return ' '.join('%s%d' % (e, els.count(e)) for e in sorted(set(els)))
+        fails.append(Failure(api, 'wrong-molecule', '%s -> %s (%d bonds, %d components), described: %s = %s (%d bonds)' % (
+            text, formula(fine), fine.number_of_edges(), nx.number_connected_components(fine), ref, formula(want), want.number_of_edges()),
+            'resolve/typed-zero-order/wrong-molecule', text=text))
+    return Outcome(text, True, fails)
+
+
 def cases(tier, seed):
     rng = random.Random(seed * 1299709 + 11)
     quick = tier == 'quick'
+    for text, ref in TYPED:
+        yield {'fam': 'typed', 'text': text, 'ref': ref}
     descs = list(_descriptions(tier, seed))
     # most discriminating first: several fragments, virtual node in front of real nodes
     descs.sort(key=lambda d: (0 if 2 <= max(d[1]) + 1 <= 3 else 1, len(d[0]['a'])))
@@ -229,6 +272,8 @@ def _plain(pbuilt):
 
 
 def check_case(case):
+    if case.get('fam') == 'typed':
+        return check_typed(case)
     built = g2.build(case)
     text = g2.describe(built)
     if not base.base_reads_as_intended(built):
